@@ -47,7 +47,9 @@ fn main() {
             let tier = arg_after(&args, "--tier").or_else(|| std::env::var("VERIF_TIER").ok()).unwrap_or_else(|| "quick".into());
             let runs = arg_after(&args, "--runs").and_then(|s| s.parse().ok()).unwrap_or_else(|| coord::budget_for(&property, &tier));
             let workers = arg_after(&args, "--workers").and_then(|s| s.parse().ok()).or_else(|| std::env::var("VERIF_WORKERS").ok().and_then(|s| s.parse().ok())).unwrap_or(16);
-            let cfg = coord::CheckCfg { property, tier, runs, workers, determinism: false, collect_codes: false };
+            let only: Option<Vec<u64>> = arg_after(&args, "--only").map(|s| s.split(',').filter_map(|x| x.parse().ok()).collect());
+            let runs = only.as_ref().map(|v: &Vec<u64>| v.len() as u64).unwrap_or(runs);
+            let cfg = coord::CheckCfg { property, tier, runs, workers, determinism: false, collect_codes: false, only };
             coord::check(&cfg)
         }
         "determinism" => {
